@@ -26,7 +26,12 @@ def c_act(a):
 
 
 def c_item(it):
-    return "C30.PynDraw" if it[0] == "PynDraw" else f"(C30.Exec {clist(c_act(a) for a in it[1])})"
+    if it[0] == "PynDraw":
+        return "C30.PynDraw"
+    if it[0] == "ExecTimeout":
+        _code, t1, t2 = P.timeout_call(*it[1])
+        return f"(C30.ExecTimeout {clist(c_act(a) for a in t1)} {clist(c_act(a) for a in t2)})"
+    return f"(C30.Exec {clist(c_act(a) for a in it[1])})"
 
 
 def c_sref(r):
@@ -70,12 +75,18 @@ def c_case(env, rec):
 def _norm(seq):
     items = []
     for it in seq["items"]:
-        items.append(("PynDraw",) if it[0] == "PynDraw" else ("Exec", [tuple(a) for a in it[1]]))
+        if it[0] == "PynDraw":
+            items.append(("PynDraw",))
+        elif it[0] == "ExecTimeout":
+            items.append(("ExecTimeout", list(it[1])))
+        else:
+            items.append(("Exec", [tuple(a) for a in it[1]]))
     return {**seq, "items": items}
 
 
 def _json(seq):
-    return {**seq, "items": [[it[0]] if it[0] == "PynDraw" else ["Exec", [list(a) for a in it[1]]] for it in seq["items"]]}
+    return {**seq, "items": [[it[0]] if it[0] == "PynDraw" else ["ExecTimeout", list(it[1])] if it[0] == "ExecTimeout"
+                             else ["Exec", [list(a) for a in it[1]]] for it in seq["items"]]}
 
 
 def shrink(sess, seq, fails):
@@ -119,6 +130,9 @@ def run(ctx: vlib.Ctx):
         if ctx.rng.random() < 0.08:
             s["custom_err"] = True
         seqs.append(s)
+    # real executions that run into the executor's time-out (about 2.5 s each)
+    for k in range(len(P.TIMEOUT_KINDS) * (1 if ctx.quick else 3)):
+        seqs.append(P.gen_timeout_sequence(ctx.rng, P.TIMEOUT_KINDS[k % len(P.TIMEOUT_KINDS)]))
     recs = []
     fails = []  # (signature, message, shrunk sequence)
     with P.Session(ctx.mkscratch(), CFG_SEED) as sess:
@@ -192,6 +206,9 @@ def run(ctx: vlib.Ctx):
         for it, outs, _o in rec["steps"]:
             if it[0] == "PynDraw":
                 ctx.count("item:PynDraw")
+                continue
+            if it[0] == "ExecTimeout":
+                ctx.count("item:ExecTimeout:" + it[1][0])
                 continue
             ctx.count("item:Exec")
             for a in it[1][:len(outs)]:
